@@ -170,6 +170,10 @@ def plan(S, prop, mode, tier, avoid):
         nx = r.randrange(1 if not no_n1 else 2, 25)
         ny = nx if (chance(r, 0.4) or no_q2_rect) else r.randrange(1 if not no_n1 else 2, 25)
         cfg["q2"] = [nx, ny]
+        if chance(r, 0.04) and not no_q2_rect:
+            # a fine two-dimensional grid: a few hundred thousand points (grids this size are where an implementation
+            # starts to work in blocks)
+            cfg["q2"] = list(pick(r, [(512, 512), (513, 512), (600, 500), (2000, 150), (150, 2000), (1024, 300), (257, 1025)]))
     nops = r.randrange(2, 13)
     if tier == "thorough" and chance(r, 0.12):
         nops = r.randrange(13, 40)          # thorough tier: longer histories
@@ -204,6 +208,15 @@ def plan(S, prop, mode, tier, avoid):
                        "rk": pick(r, ["list", "tuple", "array"])})
             if k == "func" and chance(r, 0.12):
                 op["reenter"] = True
+            elif k == "func" and chance(r, 0.14):
+                # an integrand that KEEPS the array it returns (a memoised function, a precomputed table): the same
+                # array object is handed back whenever the same abscissae are asked for again
+                op["memo"] = True
+                prevm = [o for o in ops if o.get("memo")]
+                if prevm and chance(r, 0.65):
+                    q = prevm[-1]
+                    op.update({"c": q["c"], "h": q["h"], "g": q["g"], "rev": q["rev"], "npts": q["npts"]})
+                    last_npts = op["npts"] if op["npts"] is not None else last_npts
         elif k in ("data", "qgauss"):
             c, h = draw_interval(r)
             m = r.randrange(2, 40)
@@ -318,6 +331,7 @@ def execute(script, run, env):
     prop = run.prop
     judge = prop == "C17"
     c15 = prop == "C15"
+    memo = {}
     try:
         qg = integrate.QGauss(cfg["ctor_npts"]) if cfg["ctor_npts"] is not None else integrate.QGauss()
     except Exception as e:  # constructor with a valid npts must work
@@ -440,6 +454,18 @@ def execute(script, run, env):
                 def f_call(x, _f=f, _qg=qg, _a=a, _b=b):
                     inner = _qg.integrate([_a, 0.5 * (_a + _b)], lambda t: np.cos(t) + 0.0 * t)
                     return _f(x) + 0.0 * inner
+            if op.get("memo"):
+                run.fault("integrand_returns_an_array_it_keeps")
+                feats["memo"] = True
+
+                def f_call(x, _f=f, _memo=memo, _id=repr((op["g"], c, h))):
+                    key = (_id, np.asarray(x).tobytes())
+                    y = _memo.get(key)
+                    if y is None:
+                        y = _memo[key] = np.asarray(_f(x), dtype="f8")
+                    else:
+                        run.fault("memoised_integrand_values_handed_out_again")
+                    return y
             try:
                 got = qg.integrate(rng_arg, f_call, npts=op["npts"])
             except Exception as e:
